@@ -21,7 +21,8 @@ MANIFEST = {
     'technique': 'invariant evaluation over live data structures at a quiescent point (after import) plus trace-hook capture of function-local tables and end-to-end audits',
 }
 BROKEN = re.compile(r'md5|sha1(?![0-9])|sha-1|arcfour|rc4|(?<![a-z0-9])3?des(?![a-z])|^none$|dss|group1-|nistp|nistk|nistb|nistt|ripemd|blowfish|cast128|idea|rijndael|seed-|serpent'
-                    r'|1\.2\.840\.10045\.3\.1\.|1\.3\.132\.0\.(?!10$)')
+                    r'|1\.2\.840\.10045\.3\.1\.|1\.3\.132\.0\.(?!10$)'
+                    r'|dh1(?![0-9])|ecdh(?:256|384|521)', re.I)   # any spelling / letter case: the database also holds camel-case names (kexAlgoDH14SHA1, ...)
 
 
 def cases(tier, seed):
